@@ -213,6 +213,21 @@ let run_case_inner (a : string array) : string =
       | None -> "0"
       | Some tt -> show_tr (spec_transition s tt)) in
     out m s (wf && in64 t)
+  | "ntm" | "ptm" ->
+    (* sub-second time points (milliseconds): strictly after / strictly before the INSTANT ms/1000 *)
+    let e = get a.(1) in let ms = zi a 2 in
+    let k = z_of_int 1000 in
+    let m = with_model e (fun z -> show_res show_tr
+              (if a.(0) = "ntm" then next_transition_sub z (z_of_int 1) k ms else prev_transition_sub z (z_of_int 1) k ms)) in
+    let wf = Lazy.force e.wf in
+    let s = with_spec e (fun s ->
+      let ch = Lazy.force e.changes in
+      let cand = if a.(0) = "ntm" then (try Some (List.find (fun x -> zlt ms (Z.mul x k)) ch) with Not_found -> None)
+                 else (try Some (List.find (fun x -> zlt (Z.mul x k) ms) (List.rev ch)) with Not_found -> None) in
+      match cand with
+      | None -> "0"
+      | Some tt -> show_tr (spec_transition s tt)) in
+    out m s (wf && in64 (Z.mul ms k))
   | "rt" ->
     (* C03: instant -> civil -> instant *)
     let e = get a.(1) in let t = zi a 2 in
